@@ -23,7 +23,9 @@ claim('C08', 'proof',
       'Dominance contracts over the whole mutating surface of pg.List / pg.Dict / pg.Object (every accessor, mutator, in-place operator and the '
       'rebind chain down to `_set_item_of_current_tree`): on every symbolic path of the real bodies, any payload write, write-primitive call or '
       'unreviewed call is preceded by a consultation of `treats_as_sealed` (resp. `writtable_via_accessors`) that answered "not protected"; the two '
-      'predicates are proved against the documented scope-over-flag precedence; SURFACE obligations show no mutating C method of list/dict is inherited.',
+      'predicates are proved against the documented scope-over-flag precedence; SURFACE obligations show no mutating C method of list/dict is inherited; '
+      '`Dict.__init__` / `List.__init__` called with sealed=True end with self.seal(True) after the last member is stored on every returning path (no members, members, '
+      'value spec, pass-through) and seal nothing otherwise.',
       'Trusted: the reviewed list of non-mutating callees (PURE in contracts/c08_protect.py) and the engine. That nodes reached from a protected receiver '
       'are protected (seal is deep; the scope override is global) is proved as a one-level step: `Dict.sym_seal`, `List.sym_seal`, `Object.sym_seal` seal every '
       'symbolic child with the requested flag (LOOP-BODY) and set their own flag on every returning path -- no shortcut -- and holds for whole trees by induction. "Tree stays exactly as it was" for nested trees is additionally '
@@ -57,7 +59,8 @@ claim('C19', 'proof',
       'Finite-domain proof of the gate: `_CodeValidator.generic_visit` over every class of the live `ast` module x all 2^8 permission sets (symbolic '
       'bit-vector) returns only if every permission the statement requires is granted, then visits all children; no visit_<X> override exists; '
       '`parse` validates with the given permission and turns SyntaxError into CodeError; in `evaluate` the parse with the *effective* permission '
-      'dominates every exec/eval/compile, with and without an enclosing scope.',
+      'dominates every exec/eval/compile, with and without an enclosing scope; the scope manager `coding.permission`: inside a scope the effective permission is the '
+      'outer one whenever there is one (never widened, whatever the truth value of the stored flag -- the empty flag is falsy), and the store is restored exactly.',
       'Trusted: engine, `ast.NodeVisitor.generic_visit` visits every child (stdlib). "A granted program behaves like exec" is bounded-tier only.',
       'contract-based deductive verification (pyvc; exhaustive over ast classes, symbolic permission bits)', 'DESIGN.md 5/C19')
 claim('C11', 'proof',
@@ -66,7 +69,8 @@ claim('C11', 'proof',
       'ValueError iff the statement\'s constraints (arity, 0 <= index < n, distinctness, sortedness, conditional sub-space validity, float range) fail; '
       '`DNA.use_spec` (binding) for float, multi-element space, multi-choice and single-choice specs accepts exactly the members in the same sense (children\'s binding as '
       'induction hypothesis), binds the node to exactly that spec on success and leaves its spec untouched when it refuses; `Space.is_constant` is true exactly for a space '
-      'without decision points. '
+      'without decision points; `DNA.from_fn`: whatever the callback answers, the DNA handed out passed `validate` or `use_spec` of the spec that was asked '
+      '(loop contract over the elements of a space of any size), an index-list answer becomes exactly those choices with the sub-DNAs of the chosen candidates, and the callback is asked once. '
       'The enumeration itself (next_dna odometers, space_size, random_dna, Sweeping) is checked by the bounded tier against brute-force enumeration.',
       'Trusted: engine; axioms for set()/sorted() on integer sequences; A-INDUCTION for sub-spaces. next_dna / space_size are not under contract '
       '(nested closures with mutable sets): bounded only.',
@@ -84,7 +88,8 @@ claim('C16', 'proof',
       'fields (and the trial status) only with the study lock held and inside ONE critical section; id allocation, the single proposal call and the append are '
       'atomic; the pending trial of a group is handed out again or exactly one new trial is created in the same section; the PENDING -> COMPLETED transition is a '
       'test-and-set (exactly one of two racing finishers reports a trial); `Feedback.done`/`skip`: only the worker that wins the transition reports the trial to the algorithm (done: exactly once, before booking it; skip: not at all), and a '
-      'refused `done()` has not touched the trial; each section preserves the study invariant (ids 1..len(trials), PENDING+COMPLETED '
+      'refused `done()` has not touched the trial; `_InMemoryBackend._feedback` hands a reward to the shared algorithm exactly once and only inside the study\'s feedback lock, '
+      'whatever `needs_feedback` says; each section preserves the study invariant (ids 1..len(trials), PENDING+COMPLETED '
       '== len(trials), len <= max_num_trials, best trial feasible and of maximal reward) from any state satisfying it; no other method writes the guarded '
       'fields. Proved sequentially per critical section, hence valid under every schedule (lock = mutual exclusion).',
       'Trusted: engine, threading.Lock mutual exclusion. What happens BETWEEN critical sections (delivery of the returned trial to the worker, the algorithm\'s own '
@@ -94,7 +99,8 @@ claim('C16', 'proof',
 claim('C14', 'proof',
       'Selectors: `compute_num_output` returns the documented count (n, ceil(n*len) within [0, len], or len); `First`/`Last` return exactly the first/last '
       'min(count, len) members in order; `Top`/`Bottom` (non-cluster) return min(count, len) members, all drawn from the input; the input population is left '
-      'untouched -- for populations of any size. Mutators, recombinators, NSGA2/NEAT and the composition algebra are covered by the bounded tier '
+      'untouched -- for populations of any size. Random source of the 12 seeded operator / generator classes: the hook that runs after every symbolic update leaves the '
+      'global `random` module for seed None and a fresh random.Random(seed) from exactly that seed for every integer (0 included). Mutators, recombinators, NSGA2/NEAT and the composition algebra are covered by the bounded tier '
       '(spec.validate + alignment of every child, inputs unchanged, seeded determinism).',
       'Trusted: engine; sorted(key=...) is axiomatised as a rearrangement (membership + length), the order by key is not modelled.',
       'contract-based deductive verification (pyvc) + bounded stand-in for mutators/recombinators/composition', 'DESIGN.md 5/C14')
@@ -111,7 +117,7 @@ claim('C01', 'proof',
       'returns a symbolic node with parent = the container\'s parent-for-children and path = container path + key, adopts the node object itself only if it was '
       'free or already in that slot and otherwise adopts a copy while the original keeps parent and path (one object never in two places); the list write '
       'primitive, `__setitem__`, `__delitem__` and `pop` detach (sym_setparent(None)) the very child they remove or replace, for lists of any length; the dict write '
-      'primitive detaches (parent and path reset) the node stored under a key that is replaced or deleted; `List.sort`/`reverse` are followed by the re-addressing pass on '
+      'primitive detaches (parent and path reset) the node stored under a key that is replaced or deleted and does not detach a node that is still stored when the call returns; `List.sort`/`reverse` are followed by the re-addressing pass on '
       'every returning path, and that pass (`_sync_children`, lists of any length) gives every symbolic element whose key differs from its index the path list-path + index. '
       'The whole-tree invariant over histories is checked by the bounded tier (well-formedness walk after every step of all short histories).',
       'Trusted: engine; assumed contract of `Symbolic.clone` (fresh parentless copy, see C07) and of `_update_children_paths` (recursive re-addressing); '
@@ -119,22 +125,27 @@ claim('C01', 'proof',
       'contract-based deductive verification (pyvc small-heap + trace obligations) + bounded stand-in over histories', 'DESIGN.md 5/C01')
 claim('C05', 'proof',
       'Persistence kernel: `MemoryFileSystem._internal_path` strips exactly the prefix for every path (string VC), hence distinct paths never share a file; '
-      'opening an existing in-memory file for writing presents an empty buffer, so a read returns exactly the last content written. JSON round trips of all '
+      'opening an existing in-memory file for writing presents an empty buffer, so a read returns exactly the last content written. Codec kernel: the real '
+      '`json_conversion.to_json` and `from_json` run back to back on a list / tuple of any length whose children round-trip (induction hypothesis) give a sequence of '
+      'the same kind with exactly the same children, for every list whose first child does not encode as the tuple marker and every non-empty tuple, and raise only in '
+      'those two classes (the unrestricted clauses are stated, fail, and are the known findings marker-collision / empty-tuple). `Functor._sym_clone` (what copy.deepcopy '
+      'of a functor runs) carries every piece of call behaviour over. JSON round trips of all '
       'value families, both file systems under save/overwrite/load histories, record sequences, pickle and deepcopy are covered by the bounded tier.',
-      'Trusted: engine, str.startswith / slicing in the SMT string theory, StringIO seek/truncate axioms. The JSON codec lemma (tuple marker, int-key '
-      'encoding) is not yet under contract.',
+      'Trusted: engine, str.startswith / slicing in the SMT string theory, StringIO seek/truncate axioms; A-INDUCTION and A-RESOLVE (resolve_typenames is the identity on '
+      'lists without _type keys) for the codec kernel. The dict branch of the codec (int-key prefix, _type key) is bounded only.',
       'contract-based deductive verification (pyvc, string VCs) + bounded stand-in (generated value universe, file-system histories)', 'DESIGN.md 5/C05')
 claim('C07', 'proof',
       '`Dict._sym_clone` and `List._sym_clone` for containers with any number of children: the copy is constructed with value_spec, allow_partial, '
       'accessor_writable and sealed of the original; in every iteration a symbolic child (and every child when deep) is replaced by `base.clone(child, deep, memo)` '
       'and a leaf of a shallow clone is shared as is (LOOP-BODY obligation); the original is not written; `Ref._sym_clone` returns a NEW Ref node that '
-      'holds the very same referenced object, whatever `deep`/`memo`. Equality, independence under later mutation, '
+      'holds the very same referenced object, whatever `deep`/`memo`; `Functor._sym_clone` returns the copy made by `Object._sym_clone` (same deep/memo) with the three '
+      'argument sets as fresh copies each of its own source and override_args / ignore_extra_args each from its own source. Equality, independence under later mutation, '
       'Object/Ref/DNA/hyper clones and copy.copy/deepcopy are covered by the bounded tier.',
       'Trusted: engine; `base.clone` on children is the induction hypothesis; constructors establish a well-formed tree (C01).',
       'contract-based deductive verification (pyvc loop contracts) + bounded stand-in', 'DESIGN.md 5/C07')
 claim('C09', 'proof',
-      'Dispatch discipline of the mutators, on the real bodies for containers of any size (14 unbounded obligations): on every returning path of '
-      '`List.append/extend/insert/__setitem__/__delitem__/pop/__iadd__`, `Dict.__setitem__/__delitem__/pop/popitem/setdefault/update` and `Object.__setattr__` '
+      'Dispatch discipline of the mutators, on the real bodies for containers of any size (16 unbounded obligations): on every returning path of '
+      '`List.append/extend/insert/__setitem__/__delitem__/pop/__iadd__/__imul__` (a delegating mutator is checked against the callee\'s contract of this family), `Dict.__setitem__/__delitem__/pop/popitem/setdefault/update` and `Object.__setattr__` '
       'on which the tree is written, `_notify_field_updates` is called exactly once, after the last write, when change notification is enabled (one batch per call: '
       'no per-element dispatch, no shortcut that skips it -- it is also what resets the cached derived facts) and not at all when it is disabled; a mutator that '
       'writes without consulting the notification flag fails. The dispatcher itself, `Symbolic._notify_field_updates`, is executed symbolically on an ancestor chain '
@@ -157,7 +168,8 @@ claim('C03', 'proof',
       'contract-based deductive verification (pyvc trace/dominance obligations) + bounded stand-in', 'DESIGN.md 5/C03')
 claim('C12', 'proof',
       'Alignment kernel: `DNA._sym_clone` hands the copy the very spec object of the original, carries over exactly the clone-able user data and metadata keys, '
-      'and does not write the original (4 obligations). The exported views themselves (to_numbers/from_numbers, to_dict/from_dict under all option combinations, '
+      'and does not write the original; `DNASpec.first_dna` / `next_dna` / `random_dna` and `DNA.from_fn` hand out the generated DNA after exactly one `use_spec` with the spec '
+      'that was asked -- also when `attach_spec` is omitted -- and unbound only on an explicit attach_spec=False (20 obligations in all). The exported views themselves (to_numbers/from_numbers, to_dict/from_dict under all option combinations, '
       'compact/verbose JSON, lookups by id/name/decision point) and alignment after every library operation that produces DNAs are covered by the bounded tier only.',
       'NARROW proof: the view functions thread mutable closures and whole-tree recursion and are outside the engine\'s reach; for them the check is a bounded '
       'stand-in (all valid DNAs of generated specs up to a size bound x all option combinations). Trusted: engine; `Object._sym_clone` returns a fresh copy (C07).',
@@ -166,7 +178,8 @@ claim('C13', 'proof',
       'Frame kernel of `ObjectTemplate._decode` for templates with any number of hyper primitives: every rebind that materialises decoded values is applied to '
       '`symbolic.clone(template_value, deep=True)`, never to the template value; primitive i decodes exactly child DNA i (LOOP-BODY obligation); an arity '
       'mismatch is refused before anything is decoded; the template\'s own fields are not written; `OneOf.custom_apply` records the bound value spec only after every '
-      'candidate was applied to it, and a refused binding leaves the placeholder unbound. Decode/encode inversion, shapes, value-spec acceptance, '
+      'candidate was applied to it, and a refused binding leaves the placeholder unbound; `hyper.Float.custom_apply` refuses a floatv(lo, hi) with ValueError iff the float '
+      'field\'s range does not contain [lo, hi] (real arithmetic, every combination of present / absent bounds). Decode/encode inversion, shapes, value-spec acceptance, '
       'iteration counts and `where` filters are covered by the bounded tier against an independent reference model.',
       'Trusted: engine; the deep clone is a fresh disjoint tree (C07/C01); primitives\' own decode is the induction hypothesis. Derived-value computation '
       '(`_compute_derived`) is not under contract.',
@@ -178,7 +191,10 @@ claim('C18', 'proof',
       'against a specification of Python\'s binding rule (positional i binds parameter i; surplus positionals go to *args or raise TypeError; a keyword naming a '
       'bound parameter raises TypeError; the symbolic constructor receives exactly that binding) for every signature shape with <= 3 positional parameters (+- *args), '
       '<= 4 positional and <= 2 keyword arguments, values symbolic: 300 obligations, all discharged, but with a stated bound on the signature size, so they are a '
-      'BOUNDED stand-in and not counted as proved. The property itself (same result or same kind of error as calling the original callable) is checked by the '
+      'BOUNDED stand-in and not counted as proved. Call-time binding, `Functor._parse_call_time_overrides`, is executed the same way against `py_call`, a spec of '
+      'Python\'s call rule extended by the documented switches override_args / ignore_extra_args (taken from the call when given there, else from construction): '
+      'signatures with <= 2 positional parameters (with/without default), +- *args, +- one keyword-only parameter, +- **kwargs; <= n+1 positionals, <= 2 keywords, <= 2 '
+      'arguments bound earlier; values and switches symbolic; 14,674 shapes in the thorough tier, a seed-determined sample of 480 in the quick tier -- also BOUNDED. The property itself (same result or same kind of error as calling the original callable) is checked by the '
       'bounded differential driver with the interpreter as oracle (function, class-style and symbolized-class functors; signature shapes x supply modes x value '
       'classes x operation histories).',
       'Only the lookup kernel is proved: "behaves like the original callable" has the Python interpreter itself as specification, which a contract cannot state in '
